@@ -6,6 +6,8 @@ Open Scope Z_scope.
 
 Inductive sspec : Type :=
 | SLeaf (t : Z) (body : bytes)                          (* PE32, TE, RAW, freeform, unknown types ... *)
+| SLeafL (t : Z) (body : bytes)                         (* the same with the extended common header
+                                                           (32-bit size): sections of 16 MiB and more *)
 | SGuid (g : bytes) (attrs : Z) (extra payload : bytes) (* GUID-defined, not decoded *)
 | SUi (p : bytes)                                       (* user interface: UCS-2 payload *)
 | SVer (build : Z) (p : bytes)                          (* version: build number + UCS-2 payload *)
@@ -36,6 +38,7 @@ Definition xh_bytes (x : option (bytes * bytes * bytes * bytes)) : bytes :=
 Fixpoint emit_s (s : sspec) : bytes :=
   match s with
   | SLeaf t body => sec_bytes t body
+  | SLeafL t body => sec_bytes_large t body
   | SGuid g attrs extra payload => sec_bytes 2 (gd_body g attrs extra payload)
   | SUi p => sec_bytes 21 p
   | SVer build p => sec_bytes 20 (le_enc 2 build ++ p)
@@ -82,6 +85,8 @@ Fixpoint wf_s (s : sspec) : Prop :=
   match s with
   | SLeaf t body => leaf_type t = true /\ in_range 0 t 256 /\ bytes_ok body = true /\
                     4 + zlen body < 16777215
+  | SLeafL t body => leaf_type t = true /\ known_section t = true /\ in_range 0 t 256 /\
+                     bytes_ok body = true /\ 8 + zlen body < 4294967295
   | SGuid g attrs extra payload =>
       zlen g = 16 /\ bytes_ok g = true /\ in_range 0 attrs 65536 /\
       (Z.land attrs 1 = 0 \/ codec_kind g = 0) /\ bytes_ok extra = true /\ bytes_ok payload = true /\
@@ -162,6 +167,8 @@ Definition wfb_xh (hl : Z) (x : option (bytes * bytes * bytes * bytes)) : bool :
 Fixpoint wfb_s (s : sspec) : bool :=
   match s with
   | SLeaf t body => leaf_type t && rng 0 t 256 && bytes_ok body && (4 + zlen body <? 16777215)
+  | SLeafL t body => leaf_type t && known_section t && rng 0 t 256 && bytes_ok body &&
+                     (8 + zlen body <? 4294967295)
   | SGuid g attrs extra payload =>
       (zlen g =? 16) && bytes_ok g && rng 0 attrs 65536 &&
       ((Z.land attrs 1 =? 0) || (codec_kind g =? 0)) && bytes_ok extra && bytes_ok payload &&
